@@ -195,13 +195,13 @@ PROPS["C06"] = dict(
 
 
 PROPS["C05"] = dict(
-    units=["xbin_load", "bin_load", "xbin_save", "idf_load", "idf_save", "tnd_save"],
+    units=["xbin_load", "bin_load", "xbin_save", "idf_load", "idf_save", "tnd_load", "tnd_save", "sauce"],
     kani_quick=["c18_attr_byte_roundtrip", "c18_attr_tuple_roundtrip"],
     trusted_base=LOADER_TRUST + [
         "Buffer::new / Layer::new / Line::create: one unlocked visible layer pre-filled with `height` rows of `width` invisible cells (read from the code, assumed as vx_buffer_new)",
         "Buffer::set_sauce, Palette::from_63 assignment, BitFont::create_8 / set_font / clear_font_table are opaque statements (O1) with frame-only contracts",
     ],
-    unverified_remainder=["readers under contract: XBin, BIN, ADF, IDF (files up to 28 KiB); writers under contract: XBin (header, flags, image block, nothing after it without SAUCE), BIN, ADF (version byte, image block = the last 2*80*h bytes, row-major) and IDF (screen block == the picture's cells under the reader's record grammar, compressed or not). Tundra writer (unit tnd_save): under the reader's command grammar (transcribed, not proved against TundraDraw::load_buffer, whose palette bookkeeping is opaque) the stream paints every cell's character and 24-bit colours - for pictures whose cells are all visible and not bold and whose colour 0 is black (outside that scope the writer is NOT decided: invisible cells in the middle of a picture are skipped without a position command, bold cells compare base colours only). NOT decided: the palette / font blocks the writers emit (opaque stubs) and the cell semantics of the Tundra reader (only its totality, C02)",
+    unverified_remainder=["readers under contract: XBin, BIN, ADF, IDF (files up to 28 KiB); writers under contract: XBin (header, flags, image block, nothing after it without SAUCE), BIN, ADF (version byte, image block = the last 2*80*h bytes, row-major) and IDF (screen block == the picture's cells under the reader's record grammar, compressed or not). Tundra: reader (unit tnd_load) and writer (unit tnd_save) are both proved against one shared command grammar (prelude/tnd_specs.rs): the reader paints exactly tnd_cells(stream) row-major with colour indices that resolve to the commanded 24-bit colours (abstract palette: the clauses of Palette::insert_color_rgb proved in unit palette are assumed at the call), the writer's stream has tnd_cells == the picture's cells - for pictures whose cells are all visible and not bold and whose colour 0 is black (outside that scope the writer is NOT decided: invisible cells in the middle of a picture are skipped without a position command, bold cells compare base colours only). NOT decided: the palette / font blocks the writers emit (opaque stubs); Tundra position commands (the writer never emits them; on such files only totality is proved); SAUCE geometry of BIN files is the sauce unit's clause tagged C05 (BinaryText width = 2 * file type byte)",
                           "for pictures higher than 25 rows the loaded height is proved <= the header height, equality needs the data to be complete (not stated)",
                           "palette and font block contents (from_63 is proved in unit palette; glyph data in C17)"],
     explanation="XBin::load_buffer is proved total on every byte string up to 16 MiB and to return the header's width, a height equal to the header's for pictures of at most 25 rows "
